@@ -537,6 +537,17 @@ theorem holds_model_wf (o : Oracle) (ty : Nat) (Mf Mt : MsgSpec) (vs : List Val)
     holds o ty true (Mf.marshal vs) (toObs (some (Mf.marshal vs))) = true :=
   holds_model o ty true _ _ (model_wf o ty Mf Mt vs hf ht hc hpf hpt) (fun _ => rfl)
 
+/-- two decodes: the model is a pure function of each input, so the monitor's pair clause accepts
+    the model's prediction (`A2 = A`) for every type, oracle and pair of inputs -/
+theorem holdsPair_model (o : Oracle) (ty : Nat) (inA inB : Bytes) (ra rb : Option Bytes)
+    (ha : unmarshal o ty inA = some ra) (hb : unmarshal o ty inB = some rb) :
+    holdsPair o ty inA inB ra rb ra = true := by
+  simp [holdsPair, propHoldsPair, specHoldsPair, ha, hb]
+
+/-- … and rejects any observation in which the value decoded first changed afterwards -/
+theorem propHoldsPair_rejects (a b a2 : Option Bytes) (h : a2 ≠ a) : propHoldsPair a b a2 = false := by
+  simp [propHoldsPair, h]
+
 /-- the model-independent clause rejects panics, hangs, non-idempotent values, and a rejected or
     altered round trip, whatever the type -/
 theorem propHolds_rejects (bs out : Bytes) (s : String) (wf : Bool) :
